@@ -48,7 +48,8 @@ def build_harness():
     return BIN
 
 
-def harness(args, timeout=3600, stdin=None, env=None, check=True):
+def harness(args, timeout=3600, stdin=None, env=None, check=True, binary="cc-conform"):
+    """Run one of the harness binaries (src/bin/<binary>.rs) with the given arguments."""
     build_harness()
     e = dict(os.environ)
     e.setdefault("RUST_BACKTRACE", "0")
@@ -56,7 +57,8 @@ def harness(args, timeout=3600, stdin=None, env=None, check=True):
         e.update({k: str(v) for k, v in env.items()})
     t0 = time.time()
     try:
-        p = subprocess.run([BIN] + [str(a) for a in args], input=stdin, stdout=subprocess.PIPE,
+        exe = os.path.join(HARNESS, "target", "release", binary)
+        p = subprocess.run([exe] + [str(a) for a in args], input=stdin, stdout=subprocess.PIPE,
                            stderr=subprocess.PIPE, text=True, timeout=timeout, env=e)
     except subprocess.TimeoutExpired:
         raise ToolError("harness timeout: %s" % " ".join(map(str, args)))
@@ -78,6 +80,7 @@ class TlcResult:
         self.generated = 0
         self.distinct = 0
         self.depth = 0
+        self.traces = 0            # simulation: number of behaviours generated
         self.printed = []          # PrintT / Print output lines (raw)
         self.coverage = {}         # action name -> (distinct, total)
         self.trace = ""            # counterexample text
@@ -140,6 +143,13 @@ def tlc(module, cfg=None, env=None, workers=8, simulate=None, depth=None, timeou
         m = re.match(r"^(\d+) states generated, (\d+) distinct states found", line)
         if m:
             r.generated, r.distinct = int(m.group(1)), int(m.group(2))
+        m = re.match(r"^The number of states generated: (\d+)", line)
+        if m:
+            r.generated = max(r.generated, int(m.group(1)))
+            r.distinct = max(r.distinct, int(m.group(1)))
+        m = re.match(r"^Progress: (\d+) states checked, (\d+) traces generated", line)
+        if m:
+            r.traces = int(m.group(2))
         m = re.match(r"^The depth of the complete state graph search is (\d+)", line)
         if m:
             r.depth = int(m.group(1))
@@ -184,7 +194,8 @@ def tlc(module, cfg=None, env=None, workers=8, simulate=None, depth=None, timeou
         raise ToolError("TLC ended without verdict (rc=%d): %s" % (p.returncode, r.cmd))
     elif r.violated is None:
         # an evaluation error inside the spec (not a property violation) is a tool error
-        sys.stderr.write(out[-6000:])
+        i = out.find('Error:')
+        sys.stderr.write(out[max(0, i - 200):i + 3000])
         raise ToolError("TLC evaluation error: %s" % r.error)
     log("[tlc] %s/%s  %d generated, %d distinct, %.1fs%s" % (module, cfg, r.generated, r.distinct, r.wall,
                                                            "" if r.ok else "  VIOLATED " + str(r.violated)))
